@@ -12,6 +12,8 @@ ANNOTATION_SETS = {
     'non-derive': ['#[derive(AsnType, Debug, Clone, Decode, Encode, PartialEq)]', '#[serde(rename_all = "camelCase")]', '#[allow(dead_code)]'],
     'derives-twice': ['#[derive(Hash, Debug)]', '#[derive(Hash)]', '# [ derive ( Eq , Hash ) ]'],
     'none': [],
+    # a line holding a derive and a further attribute: the derive is merged, the rest of the line stays an annotation
+    'derive-then-attribute': ['#[derive(AsnType, Debug, Clone, Decode, Encode, PartialEq, Eq, Hash)] #[allow(dead_code)]', '#[derive(PartialOrd)]#[allow(unused)]'],
 }
 CUSTOM_IMPORTS = {'no': [], 'one': ['my::module::*'], 'several': ['my::module::*', 'path::to::my::Struct', 'other_crate::prelude::*']}
 
@@ -19,9 +21,11 @@ CUSTOM_IMPORTS = {'no': [], 'one': ['my::module::*'], 'several': ['my::module::*
 def user_derives(annos):
     out, rest = [], []
     for a in annos:
-        m = re.fullmatch(r'\s*#\s*\[\s*derive\s*\(\s*(.*?)\s*\)\s*\]', a)
+        m = re.match(r'\s*#\s*\[\s*derive\s*\(\s*(.*?)\s*\)\s*\](.*)$', a, re.S)
         if m:
             out.append([x.strip() for x in re.split(r'[\s,]+', m.group(1)) if x.strip()])
+            if m.group(2).strip():
+                rest.append(m.group(2).strip())
         else:
             rest.append(a)
     return out, rest
